@@ -154,3 +154,13 @@ SEEDS = [
  {"name": "c04-new-extent-fileblock-from-request-only", "properties": ["C04"], "expect": "C04-h|",
   "edits": [e(X, "			extentToAdd.fileBlock = uint32(allocated)", "			extentToAdd.fileBlock = uint32(newBlocks - extraBlockCount)")]},
 ]
+
+# --- third session
+SEEDS += [
+ {"name": "c05-inode-table-blocks-floor", "properties": ["C05"], "expect": "C05-j|",
+  "edits": [e(X, "	inodeTableBlocks := (uint64(inodesPerGroup)*uint64(sb.inodeSize) + uint64(sb.blockSize) - 1) / uint64(sb.blockSize)", "	inodeTableBlocks := uint64(inodesPerGroup) * uint64(sb.inodeSize) / uint64(sb.blockSize)")]},
+ {"name": "c05-bitmap-written-after-descriptor-flush", "properties": ["C05"], "expect": "C05-a|",
+  "edits": [e(X, "		if err := fs.writeBlockBitmap(bs, bg); err != nil {\n			return nil, fmt.Errorf(\"could not write block bitmap for block group %d: %v\", bg, err)\n		}\n		if err := fs.incrGDFreeBlocks(bg, gdBlockDelta[bg]); err != nil {\n			return nil, fmt.Errorf(\"could not update free block count in GDT for block group %d: %v\", bg, err)\n		}\n", "		if err := fs.incrGDFreeBlocks(bg, gdBlockDelta[bg]); err != nil {\n			return nil, fmt.Errorf(\"could not update free block count in GDT for block group %d: %v\", bg, err)\n		}\n		if err := fs.writeBlockBitmap(bs, bg); err != nil {\n			return nil, fmt.Errorf(\"could not write block bitmap for block group %d: %v\", bg, err)\n		}\n")]},
+ {"name": "c04-symlink-inline-limit-inclusive", "properties": ["C04", "C20", "C05"], "expect": "symlink target is kept in the inode",
+  "edits": [e("filesystem/ext4/inode.go", "	if fileType == fileTypeSymbolicLink && fileSizeNum < 60 {", "	if fileType == fileTypeSymbolicLink && fileSizeNum <= 60 {")]},
+]
